@@ -71,6 +71,7 @@ def rules(ctx):
     if f is not None:
         for p in ctx.sites(f, 'hash128_with_seed', exact=1):
             ctx.const_arg(f, p, 1, 0, 'seed 0')
+    S.header_codec_rules(ctx)
 
 
 def _type_name_facts(F):
